@@ -9,7 +9,7 @@ From Coq Require Import Init.Byte ZArith List Bool.
 Require Import Ojg.Base.Bytes Ojg.Base.Jv Ojg.Json.Machine Ojg.Json.Chunk.
 Require Import Ojg.Json.Ref Ojg.Json.RefParse Ojg.Json.Sweep Ojg.Json.DataInv Ojg.Json.Frontends.
 Require Import Ojg.Json.Sweep_parser Ojg.Json.Sweep_gen Ojg.Json.DSweeps Ojg.Json.ValueSim Ojg.Json.ValueSimSweeps Ojg.Json.ChunkSim.
-Require Import Ojg.Json.Sweep_tokenizer Ojg.Json.TokSim Ojg.Json.TokSweeps.
+Require Import Ojg.Json.Sweep_tokenizer Ojg.Json.TokSim Ojg.Json.TokSweeps Ojg.Json.EvBuild.
 Import ListNotations.
 
 Theorem C03_chunks_control : forall K cs,
@@ -105,6 +105,16 @@ Proof. vm_compute. split; reflexivity. Qed.
 
 Print Assumptions C03_tokenizer_events_single.
 Print Assumptions C03_tokenizer_events_multi.
+
+
+(* Tokenizer + Builder against Parser, on the specification side: the reference event stream
+   folded by a builder (bstep: what a Builder does with each callback) is the reference document
+   list. With C03_tokenizer_events_* and C03_values_*: the Tokenizer's callbacks and the Parser's
+   documents are images of one reference run for every text and every chunking. *)
+Theorem C03_events_build_documents : forall one w evs,
+  ref_events one w = Some evs -> ref_parse one false w = Some (build_events evs).
+Proof. exact ref_events_build. Qed.
+Print Assumptions C03_events_build_documents.
 
 Print Assumptions C03_values_parser.
 Print Assumptions C03_chunkings_agree_gen_multi.
